@@ -1,6 +1,3 @@
 import ModVerif.AuditCmd
-import ModVerif.Model.Client
-import ModVerif.Proofs.ClientAuth
 import ModVerif.Props.C01
-#audit_module ModVerif.Proofs.ClientAuth
 #audit_module ModVerif.Props.C01
